@@ -195,7 +195,7 @@ func genCase(t *rapid.T) jcase {
 }
 
 func TestGenerated(t *testing.T) {
-	rt.Check(t, 5000, 400000, func(t *rapid.T) {
+	rt.Check(t, 5000, 1200000, func(t *rapid.T) {
 		c := genCase(t)
 		msg, plen := run(c)
 		if msg != "" {
